@@ -86,7 +86,15 @@ fn expr_of(loc: &str) -> (String, Dqe) {
 
 fn observe(s: &Sess) -> Value {
     let pid = s.dbg.process().pid().as_raw();
-    let states = probe::task_states(pid);
+    let mut states = probe::task_states(pid);
+    // a task that is just being reaped / has just been stopped may still show R or S for a moment
+    for _ in 0..50 {
+        if states.values().all(|st| st == "t" || st == "Z" || st == "X") {
+            break;
+        }
+        std::thread::sleep(std::time::Duration::from_millis(10));
+        states = probe::task_states(pid);
+    }
     let mut tasks = vec![];
     for (tid, st) in &states {
         let mut t = json!({"tid": tid, "state": st});
